@@ -2121,8 +2121,12 @@ where
 
 impl<S, T> Drop for Client<S, T> {
     fn drop(&mut self) {
-        let mut guard = self.client_server_map.lock();
-        guard.remove(&(self.process_id, self.secret_key));
+        // A cancel-mode client carries the key of the client it cancels for:
+        // the mapping belongs to that client and must outlive the request.
+        if !self.cancel_mode {
+            let mut guard = self.client_server_map.lock();
+            guard.remove(&(self.process_id, self.secret_key));
+        }
 
         // Dirty shutdown
         // TODO: refactor, this is not the best way to handle state management.
